@@ -9,6 +9,7 @@ package keyvalue
 
 //@ interface FileRecord.Data() (b blob.Blob, err error)
 //@   deterministic
+//@   noworld
 //@   ensures "result" implies(err == nil, b != nil)
 //@ interface FileRecord.ReadDirNames() (names []string, err error)
 //@   deterministic
@@ -218,10 +219,9 @@ package keyvalue
 //@   props C02 C14 C17
 //@   requires roInv(r)
 //@   requires "blob-ok" implies(r.dataDone == 0 && recDataErr(r) == nil, blob.blobOK(recDataBlob(r)))
-//@   modifies r.data, r.dataErr, r.dataDone, oncedone(r.dataOnce), world()
-//@   ensures "first" implies(!old(oncedone(r.dataOnce)), b == old(recDataBlob(r)) && err == old(recDataErr(r)) && implies(err != nil, b == nil || true) &&
-//@                     world() == old(worldAfter("keyvalue.(FileRecord).Data", r.record)))
-//@   ensures "cached" implies(old(oncedone(r.dataOnce)), b == old(r.data) && err == old(r.dataErr) && world() == old(world()))
+//@   modifies r.data, r.dataErr, r.dataDone, oncedone(r.dataOnce)
+//@   ensures "first" implies(!old(oncedone(r.dataOnce)), b == old(recDataBlob(r)) && err == old(recDataErr(r)))
+//@   ensures "cached" implies(old(oncedone(r.dataOnce)), b == old(r.data) && err == old(r.dataErr))
 //@   ensures "state" r.data == b && r.dataErr == err && r.dataDone == 1 && oncedone(r.dataOnce) && r.record == old(r.record)
 //@   nopanic
 
@@ -304,7 +304,7 @@ package keyvalue
 //@ func (f *file) ReadBlobAt(length int, off int64) (b blob.Blob, n int, err error)
 //@   props C02 C17 C14
 //@   requires fileInv(f) && hDataOK(f)
-//@   modifies fRec(f).data, fRec(f).dataErr, fRec(f).dataDone, oncedone(fRec(f).dataOnce), world()
+//@   modifies fRec(f).data, fRec(f).dataErr, fRec(f).dataDone, oncedone(fRec(f).dataOnce)
 //@   ensures "closed" implies(f.closed, b == nil && n == 0 && closedError(err, f) && world() == old(world()))
 //@   ensures "neg" implies(!f.closed && off < 0, b == nil && n == 0 && err != nil && err != io.EOF)
 //@   ensures "data-error" implies(!f.closed && off >= 0 && old(hDataErr(f)) != nil, b == nil && n == 0 && err == old(hDataErr(f)))
@@ -322,7 +322,7 @@ package keyvalue
 //@ func (f *file) ReadAt(p []byte, off int64) (n int, err error)
 //@   props C02 C17 C14
 //@   requires fileInv(f) && hDataOK(f)
-//@   modifies fRec(f).data, fRec(f).dataErr, fRec(f).dataDone, oncedone(fRec(f).dataOnce), world(), elems(p)
+//@   modifies fRec(f).data, fRec(f).dataErr, fRec(f).dataDone, oncedone(fRec(f).dataOnce), elems(p)
 //@   ensures "closed" implies(f.closed, n == 0 && closedError(err, f))
 //@   ensures "neg" implies(!f.closed && off < 0, n == 0 && err != nil && err != io.EOF)
 //@   ensures "data-error" implies(!f.closed && off >= 0 && old(hDataErr(f)) != nil, n == 0 && err == old(hDataErr(f)))
@@ -338,7 +338,7 @@ package keyvalue
 //@ func (f *file) Read(p []byte) (n int, err error)
 //@   props C02 C17 C14
 //@   requires fileInv(f) && hDataOK(f)
-//@   modifies fRec(f).data, fRec(f).dataErr, fRec(f).dataDone, oncedone(fRec(f).dataOnce), world(), elems(p), f.offset
+//@   modifies fRec(f).data, fRec(f).dataErr, fRec(f).dataDone, oncedone(fRec(f).dataOnce), elems(p), f.offset
 //@   ensures "closed" implies(f.closed, n == 0 && closedError(err, f) && f.offset == old(f.offset))
 //@   ensures "data-error" implies(!f.closed && old(hDataErr(f)) != nil, n == 0 && err == old(hDataErr(f)))
 //@   ensures "past-end" implies(old(readOK(f, f.offset)) && old(f.offset) >= blob.blobLen(old(hData(f))), n == 0 && err == io.EOF)
@@ -352,7 +352,7 @@ package keyvalue
 //@ func (f *file) ReadBlob(length int) (b blob.Blob, n int, err error)
 //@   props C02 C17
 //@   requires fileInv(f) && hDataOK(f)
-//@   modifies fRec(f).data, fRec(f).dataErr, fRec(f).dataDone, oncedone(fRec(f).dataOnce), world(), f.offset
+//@   modifies fRec(f).data, fRec(f).dataErr, fRec(f).dataDone, oncedone(fRec(f).dataOnce), f.offset
 //@   ensures "closed" implies(f.closed, b == nil && n == 0 && closedError(err, f) && f.offset == old(f.offset))
 //@   ensures "count" implies(old(readOK(f, f.offset)) && old(f.offset) < blob.blobLen(old(hData(f))) && length >= 0,
 //@                     n == min(length, blob.blobLen(old(hData(f))) - old(f.offset)) && blob.isViewOf(b, old(hData(f)), old(f.offset), old(f.offset) + n))
@@ -574,7 +574,7 @@ package keyvalue
 //@ func (r *readOnlyFile) Read(p []byte) (n int, err error)
 //@   props C02 C17
 //@   requires roInvW(r) && bufNoAlias(r.file, p)
-//@   modifies r.file.fileData.runOnceFileRecord.data, r.file.fileData.runOnceFileRecord.dataErr, r.file.fileData.runOnceFileRecord.dataDone, oncedone(r.file.fileData.runOnceFileRecord.dataOnce), world(), elems(p), r.file.offset
+//@   modifies r.file.fileData.runOnceFileRecord.data, r.file.fileData.runOnceFileRecord.dataErr, r.file.fileData.runOnceFileRecord.dataDone, oncedone(r.file.fileData.runOnceFileRecord.dataOnce), elems(p), r.file.offset
 //@   ensures "ro-immutable" roSame(r)
 //@   ensures "closed" implies(old(r.file.closed), closedError(err, r.file))
 //@   nopanic
@@ -582,7 +582,7 @@ package keyvalue
 //@ func (r *readOnlyFile) ReadBlob(length int) (b blob.Blob, n int, err error)
 //@   props C02 C17
 //@   requires roInvW(r)
-//@   modifies r.file.fileData.runOnceFileRecord.data, r.file.fileData.runOnceFileRecord.dataErr, r.file.fileData.runOnceFileRecord.dataDone, oncedone(r.file.fileData.runOnceFileRecord.dataOnce), world(), r.file.offset
+//@   modifies r.file.fileData.runOnceFileRecord.data, r.file.fileData.runOnceFileRecord.dataErr, r.file.fileData.runOnceFileRecord.dataDone, oncedone(r.file.fileData.runOnceFileRecord.dataOnce), r.file.offset
 //@   ensures "ro-immutable" roSame(r)
 //@   ensures "closed" implies(old(r.file.closed), closedError(err, r.file))
 //@   nopanic
@@ -590,7 +590,7 @@ package keyvalue
 //@ func (r *readOnlyFile) ReadAt(p []byte, off int64) (n int, err error)
 //@   props C02 C17
 //@   requires roInvW(r) && bufNoAlias(r.file, p)
-//@   modifies r.file.fileData.runOnceFileRecord.data, r.file.fileData.runOnceFileRecord.dataErr, r.file.fileData.runOnceFileRecord.dataDone, oncedone(r.file.fileData.runOnceFileRecord.dataOnce), world(), elems(p)
+//@   modifies r.file.fileData.runOnceFileRecord.data, r.file.fileData.runOnceFileRecord.dataErr, r.file.fileData.runOnceFileRecord.dataDone, oncedone(r.file.fileData.runOnceFileRecord.dataOnce), elems(p)
 //@   ensures "ro-immutable" roSame(r)
 //@   ensures "closed" implies(old(r.file.closed), closedError(err, r.file))
 //@   nopanic
@@ -598,7 +598,7 @@ package keyvalue
 //@ func (r *readOnlyFile) ReadBlobAt(length int, off int64) (b blob.Blob, n int, err error)
 //@   props C02 C17
 //@   requires roInvW(r)
-//@   modifies r.file.fileData.runOnceFileRecord.data, r.file.fileData.runOnceFileRecord.dataErr, r.file.fileData.runOnceFileRecord.dataDone, oncedone(r.file.fileData.runOnceFileRecord.dataOnce), world()
+//@   modifies r.file.fileData.runOnceFileRecord.data, r.file.fileData.runOnceFileRecord.dataErr, r.file.fileData.runOnceFileRecord.dataDone, oncedone(r.file.fileData.runOnceFileRecord.dataOnce)
 //@   ensures "ro-immutable" roSame(r)
 //@   ensures "closed" implies(old(r.file.closed), closedError(err, r.file))
 //@   nopanic
